@@ -149,6 +149,7 @@ def execute(wm0, knobs, steps, seed, ctx, rng=None):
         # statement the developer removed before the first lock was ever written); tool-written IDs always are.
         lock_seen = wm.get("lock") is not None
         tool_ids = set()
+        ambiguous = set()
         if lock_seen:
             for mk, i in world.wm_ids(wm).items():
                 owner[i] = mk
@@ -227,26 +228,39 @@ def execute(wm0, knobs, steps, seed, ctx, rng=None):
                 ctx.probes["highest_id_deleted_then_run"] += 1
             inserted = [n for (_p, _mk, n, _t) in info["inserted"]]
             tool_ids.update(inserted)
-            lk0 = disk.get("proj/Breadlog.lock")
-            if lk0 is not None and lk0["t"] == "f" and core.read_lock(lk0["data"]) is not None:
-                lock_seen = True
             if inserted:
                 tool_max = max(inserted + ([tool_max] if tool_max is not None else []))
             scenario = {"wm": world.wm_to_json(wm0), "knobs": knobs, "steps": explicit + [], "seed": seed}
             dg_now = hashlib.sha256((digest.hexdigest() + core.digest_world(disk)).encode()).hexdigest()
-            # (a) behavioural form
+            # (a) behavioural form.  An ID becomes protected (bound to the one statement carrying it) when the tool wrote it, or
+            # when it is visible while a lock file already existed before this step.  An ID that is *first* observed on two
+            # statements at once (a fresh project whose first scan missed a file because of a read error) is a uniqueness
+            # matter of that single run, outside what the lock invariant can speak about: it is set aside, not bound.
+            holders = {}
             for mk, i in sorted(world.wm_ids(wm).items()):
-                if not lock_seen and i not in tool_ids:
+                holders.setdefault(i, []).append(mk)
+            for i in sorted(holders):
+                hs = holders[i]
+                if i in ambiguous:
                     continue
-                prev = owner.get(i)
-                if prev is not None and prev != mk:
-                    viols.append({"signature": "id-reused|after:%s" % last_abn,
-                                  "what": "step %d: ID %d, once written for statement %s, is now on statement %s (blamed run: %s)"
-                                          % (si, i, prev, mk, last_abn),
-                                  "scenario": _cut(scenario), "digest": dg_now, "step": si})
-                    owner[i] = mk
-                elif prev is None:
-                    owner[i] = mk
+                if i not in owner:
+                    if lock_seen or i in tool_ids:
+                        if len(hs) == 1:
+                            owner[i] = hs[0]
+                        else:
+                            ambiguous.add(i)
+                    continue
+                for mk in hs:
+                    if mk != owner[i]:
+                        viols.append({"signature": "id-reused|after:%s" % last_abn,
+                                      "what": "step %d: ID %d, once written for statement %s, is now on statement %s (blamed run: %s)"
+                                              % (si, i, owner[i], mk, last_abn),
+                                      "scenario": _cut(scenario), "digest": dg_now, "step": si})
+                        owner[i] = mk
+                        break
+            lk0 = disk.get("proj/Breadlog.lock")
+            if lk0 is not None and lk0["t"] == "f" and core.read_lock(lk0["data"]) is not None:
+                lock_seen = True
             # also tokens that landed outside tracked statements count as written
             # (b) inductive form, after every edit run however it ended
             if not check and tool_max is not None:
